@@ -178,7 +178,7 @@ class Unit:
             elif kw == 'mustfail':
                 self._pending_mustfail = True
                 i += 1
-            elif kw in ('fn', 'item', 'implhdr', 'arm', 'guard', 'slice', 'macroarm', 'sig', 'callslice', 'quote', 'flaguse', 'skipguard'):
+            elif kw in ('fn', 'item', 'implhdr', 'arm', 'guard', 'slice', 'macroarm', 'sig', 'callslice', 'quote', 'flaguse', 'skipguard', 'sortedfacts'):
                 # collect block up to //@end (implhdr/guard are one-liners without block)
                 block = []
                 j = i + 1
@@ -550,6 +550,31 @@ class Unit:
         where = '%s:%d' % (file, s.line_of(a))
         text = self.apply_subs(self.apply_rules(s.text[a:b], where), self._simple_subs(block), where)
         self.emit_repo(s, a, b, text=text)
+
+    def _d_sortedfacts(self, rest, block, base, tline):
+        """`//@sortedfacts FILE | LEMMA | PRED` with lines `CONST => SPEC_EXPR`: a data fact computed on every run from the
+        string literals of the constant tables of FILE: LEMMA() ensures PRED(SPEC_EXPR) for exactly those tables whose
+        literals are strictly increasing in byte order on this tree (nothing is claimed about the others)"""
+        file, lemma, pred = [p.strip() for p in rest.split('|')[:3]]
+        s = self.src(file)
+        facts = []
+        notes = []
+        for ln, l in block:
+            if '=>' not in l:
+                continue
+            cname, expr = [x.strip() for x in l.strip().lstrip('/').split('=>', 1)]
+            m = re.search(r'const\s+%s\s*:\s*&\[&str\]\s*=\s*&\[(.*?)\];' % re.escape(cname), s.text, re.S)
+            if not m:
+                self.soft_undecided.append(dict(msg='%s: constant table %s not found' % (file, cname), props=list(self.props)))
+                continue
+            items = [x.encode('utf-8') for x in re.findall(r'"((?:[^"\\]|\\.)*)"', m.group(1))]
+            ok = all(items[i] < items[i + 1] for i in range(len(items) - 1))
+            notes.append('%s: %d literals, %s' % (cname, len(items), 'strictly increasing' if ok else 'NOT sorted'))
+            if ok:
+                facts.append('%s(%s)' % (pred, expr))
+        self.emit('// data facts from the literals of %s on this tree: %s' % (file, '; '.join(notes)), ('tmpl', base, tline))
+        self.emit('#[verifier::external_body] pub proof fn %s() ensures %s { }' % (lemma, ', '.join(facts) if facts else 'true'), ('tmpl', base, tline))
+        self.rewrites.append(('data fact %s: %s' % (lemma, '; '.join(notes)), file, 1))
 
     def _d_sig(self, rest, block, base, tline):
         """the real signature of a function (no body): used to give a callee an assumed
